@@ -152,6 +152,17 @@ class Grammar:
         from interp import Unsupported
         return Unsupported(msg)
 
+    def next_depth(self, depth, head):
+        """depth is an int (expression nesting) or a pair (statement nesting, expression nesting)"""
+        if isinstance(depth, tuple):
+            s, e = depth
+            if head in ('Stmt', 'ModuleItem'):
+                return (s + 1, 0)
+            if head in ('Expr', 'Pat'):
+                return (s, e + 1)
+            return depth
+        return depth + (1 if head in ('Expr', 'Stmt', 'Pat', 'ModuleItem') else 0)
+
     # ------------------------------------------------------------ forcing
     def force(self, I, v):
         li = v.lazy
@@ -195,7 +206,7 @@ class Grammar:
         vi = d.vindex(vn)
         vdef = d.variants[vi]
         v.variant = vi
-        nd = li.depth + (1 if head in ('Expr', 'Stmt', 'Pat', 'ModuleItem') else 0)
+        nd = self.next_depth(li.depth, head)
         v.fields = [self.make(fty, li.uid + '/' + vn + ('' if fname in ('0',) else '.' + fname), nd, (head + '::' + vn, fname)) for fname, fty in vdef[1]]
         v.lazy = None
         v.meta = {'uid': li.uid}
